@@ -48,6 +48,8 @@ fn main() {
             let mode = arg(&args, "--mode", "mixed");
             if mode == "defaults" {
                 bincase::run_defaults(&mut out, 20);
+            } else if mode == "columns" {
+                bincase::run_columns(seed, count, &mut out);
             } else if mode == "descriptors" {
                 bincase::run_descriptors(seed, 6, &mut out);
             } else {
